@@ -139,6 +139,22 @@ class Scripted:
             self.timeline.append(("T", self.k))
         self.w_mark = self.events.count("W")
         self.args_seen.append(list(args) if args is not None else None)
+        mode = getattr(self, "scribble", None)
+        if mode and self.k >= 2:    # (the original is the user's file: Lithium never writes it back when test 1 rejects it)
+            # a test (or the program it starts) that changes the testcase file while it runs: a browser rewriting its
+            # prefs file, a formatter working in place, a tool deleting its input.  Lithium's own writes are what the
+            # trace records, so the audit hook is off for this one
+            saved, _watch["events"] = _watch["events"], None
+            try:
+                if mode == "append":
+                    with open(self.path, "ab") as f:
+                        f.write(b"# visited by test %d\n" % self.k)
+                elif mode == "truncate":
+                    open(self.path, "wb").close()
+                elif mode == "delete":
+                    os.remove(self.path)
+            finally:
+                _watch["events"] = saved
         if ans == "R":
             raise self.exc_class("scripted test raises at test %d" % self.k)
         # the test's answer is used for its truth value (hand-written tests `return` whatever they have: None when
@@ -317,7 +333,7 @@ class Run:
 
 def impl_run(strategy, cfg, tc, file0, verdict, clock=(), exc_class=TestRaised, atom="line",
              cap=5000, load=False, ext=".txt", watchdog=30.0, auto_tmp=False, via_link=None, prefill=None,
-             light=None, hooks=("init", "cleanup"), log_level=None):
+             light=None, hooks=("init", "cleanup"), log_level=None, scribble=None, warmup=None):
     """tc = (before, parts, reducible, after) placed directly into a testcase object, or (when
     load=True) ignored in favour of Testcase.load(file0).  verdict: str or callable(k, data)."""
     import lithium.strategies as st
@@ -365,8 +381,38 @@ def impl_run(strategy, cfg, tc, file0, verdict, clock=(), exc_class=TestRaised, 
         events = []
         script = scripted_with(hooks)(real_path, tmp, verdict, events, exc_class, cap)
         script.light = light
+        script.scribble = scribble
         lith = Lithium()
         lith.strategy = make_strategy(strategy, cfg)
+        if warmup is not None:
+            # the SAME strategy object has already reduced another file (a library user keeping the object, a second
+            # pass): nothing of that run may show in this one
+            wdata, wverdict = warmup
+            wdir = os.path.join(work, "warm")
+            os.mkdir(wdir)
+            os.mkdir(os.path.join(wdir, "tmp"))
+            wpath = os.path.join(wdir, "w" + ext)
+            Path(wpath).write_bytes(wdata)
+            wtc = getattr(tcs, ATOMS[atom_name])()
+            if ":" in atom:
+                wtc.set_cut_chars(bytes.fromhex(hb), bytes.fromhex(ha))
+            wtc.load(wpath)
+            wl = Lithium()
+            wl.strategy, wl.testcase = lith.strategy, wtc
+            wl.condition_script = Scripted(wpath, os.path.join(wdir, "tmp"), verdict_from_string(wverdict), [], exc_class, 2000)
+            wl.condition_args = ["arg0", wpath]
+            wl.temp_dir = Path(os.path.join(wdir, "tmp"))
+            import signal as _sg
+            _old = _sg.signal(_sg.SIGALRM, _on_alarm)
+            _sg.setitimer(_sg.ITIMER_REAL, watchdog)
+            try:
+                with no_tty():
+                    wl.run()
+            except (CapHit, Hang, Exception):  # pylint: disable=broad-except
+                pass
+            finally:
+                _sg.setitimer(_sg.ITIMER_REAL, 0)
+                _sg.signal(_sg.SIGALRM, _old)
         lith.testcase = testcase
         lith.condition_script = script
         lith.condition_args = ["arg0", path]
@@ -380,7 +426,7 @@ def impl_run(strategy, cfg, tc, file0, verdict, clock=(), exc_class=TestRaised, 
         steps = []
         orig_try = st.ReductionIterator.try_testcase
 
-        def try_wrapper(self, tcase, description="Reduction"):
+        def try_wrapper(self, tcase, description="Reduction", *more, **kw):
             if len(steps) > 50 * (cap or 5000):
                 raise CapHit()  # proposals without end (all skipped): a spinning strategy
             nw = events.count("W")
@@ -392,7 +438,7 @@ def impl_run(strategy, cfg, tc, file0, verdict, clock=(), exc_class=TestRaised, 
                                 tcase.after)))
             # what the next test must find on disk: this candidate (C01: "the content the file had during the test")
             script.expected = tcase.before + b"".join(tcase.parts) + tcase.after
-            return orig_try(self, tcase, description)
+            return orig_try(self, tcase, description, *more, **kw)
 
         st.ReductionIterator.try_testcase = try_wrapper
         _watch.update(path=os.path.abspath(path), tmp=os.path.abspath(tmp), events=events)
